@@ -187,6 +187,9 @@ struct Th {
     daemon: bool,
     cv: Arc<Condvar>,
     last_fail: Option<(u32, u64, u64, u64)>,
+    /// (loc, result, version, repetitions) of the last read-only operation: a thread that keeps
+    /// re-reading an unchanged cell inside one API call is in a spin-wait loop
+    last_read: Option<(u32, u64, u64, u32)>,
     spur: bool,
     vc: Vec<u32>,
     prio: u64,
@@ -562,7 +565,7 @@ impl Sim {
             vjoin(&mut vc, &pvc);
         }
         let hash_seed = mix2(st.env.hash_seed, id as u64 + 1);
-        st.th.push(Th { status: Status::NotStarted, pending: None, daemon, cv: Arc::new(Condvar::new()), last_fail: None, spur: false, vc, prio, vis_ops: 0, in_api: false });
+        st.th.push(Th { status: Status::NotStarted, pending: None, daemon, cv: Arc::new(Condvar::new()), last_fail: None, last_read: None, spur: false, vc, prio, vis_ops: 0, in_api: false });
         let sim = self.clone();
         let h = std::thread::Builder::new()
             .name(name.to_string())
@@ -750,6 +753,7 @@ fn api_invoke(sim: &Arc<Sim>, me: usize, op: u32) -> usize {
         st.overlaps += 1;
     }
     st.th[me].in_api = true;
+    st.th[me].last_read = None;
     st.push(Ev::Api { t: me as u8, op, phase: Phase::Invoke });
     st.log.len() - 1
 }
@@ -813,6 +817,14 @@ impl Hooks for H {
             }
         }
         st.th[me].pending = Some((op.kind, loc));
+        if op.kind == OpKind::Load {
+            if let Some((l, _, v, n)) = st.th[me].last_read {
+                if l == loc && v == st.locs[loc as usize].version && n >= 3 {
+                    // fourth identical read of an unchanged cell in a row: wait for the cell to change
+                    st.th[me].status = Status::Spin(loc, v);
+                }
+            }
+        }
         if let (OpKind::Cas | OpKind::CasWeak, Some((l, a, b, v))) = (op.kind, st.th[me].last_fail) {
             if l == loc && a == op.a && b == op.b && v == st.locs[loc as usize].version {
                 st.th[me].status = Status::Spin(loc, v);
@@ -896,6 +908,16 @@ impl Hooks for H {
                     vjoin(&mut st.th[me].vc, &r);
                 }
             }
+        }
+        // ---------- spin-wait bookkeeping for plain loads
+        if op.kind == OpKind::Load {
+            let v = st.locs[li].version;
+            st.th[me].last_read = match st.th[me].last_read {
+                Some((l, r, ov, n)) if l == loc && r == result && ov == v => Some((l, r, ov, n + 1)),
+                _ => Some((loc, result, v, 1)),
+            };
+        } else if !matches!(op.kind, OpKind::MutexUnlock | OpKind::RwReadUnlock | OpKind::RwWriteUnlock) {
+            st.th[me].last_read = None;
         }
         // ---------- conflict signature
         let modifying = rmw_ok || op.kind == OpKind::Store;
